@@ -127,11 +127,11 @@ shim_all(DS, M)
 @kernel('C19', funcs=['designspaceLib/__init__.py:AxisDescriptor.map_forward', 'designspaceLib/__init__.py:AxisDescriptor.map_backward',
                       'designspaceLib/__init__.py:AxisDescriptor.get_validated_map', 'varLib/models.py:piecewiseLinearMap',
                       'designspaceLib/__init__.py:DesignSpaceDocument.map_forward', 'designspaceLib/__init__.py:DesignSpaceDocument.map_backward'],
-        bounds='continuous axis with a STRICTLY monotone (increasing, or decreasing) user->design map of n in 2..4 symbolic knots (reals) and a symbolic value v anywhere (inside, '
+        bounds='continuous axis with a STRICTLY monotone (increasing, or decreasing) user->design map of 2 symbolic knots (reals; with 3 knots all 9000 paths but two are decided, those two need more than 600 s of non-linear real arithmetic each on a loaded machine, so 3 knots are left out of both tiers and not claimed) and a symbolic value v anywhere (inside, '
                'at, and outside the knots): map_backward(map_forward(v)) == v and map_forward(map_backward(w)) == w; the document-level maps agree '
                'with the axis-level ones',
         shims=['dict keyed by symbolic reals: collide mode', 'sorted() forks on comparisons'],
-        quick=[dict(n=2), dict(n=2, decreasing=True)], thorough=[dict(n=2), dict(n=3), dict(n=2, decreasing=True), dict(n=3, decreasing=True)], collide=True, path_timeout_s=600)
+        quick=[dict(n=2), dict(n=2, decreasing=True)], thorough=[dict(n=2), dict(n=2, decreasing=True)], collide=True, path_timeout_s=600)
 def axis_map_inverse(n, decreasing=False):
     a = DS.AxisDescriptor()
     a.name = 'Weight'
